@@ -118,6 +118,21 @@ impl J {
         }
     }
 
+    /// single-line form (for line-oriented worker output)
+    pub fn compact(&self) -> String {
+        match self {
+            J::Arr(v) => format!("[{}]", v.iter().map(J::compact).collect::<Vec<_>>().join(",")),
+            J::Obj(v) => format!(
+                "{{{}}}",
+                v.iter()
+                    .map(|(k, x)| format!("{}:{}", J::Str(k.clone()).dump(), x.compact()))
+                    .collect::<Vec<_>>()
+                    .join(",")
+            ),
+            other => other.dump(),
+        }
+    }
+
     pub fn get(&self, k: &str) -> Option<&J> {
         match self {
             J::Obj(v) => v.iter().find(|(n, _)| n == k).map(|(_, x)| x),
